@@ -97,6 +97,19 @@ theorem aget_project_none (S : String → Bool) (k : String) : (ms : MMems) → 
     · simp [aget, h.1, aget_project_none S k r h.2]
     · exact aget_project_none S k r h.2
 
+theorem aget_hview_none (S : String → Bool) (k : String) : (ms : MMems) → k ∉ ms.keys →
+    aget k (ms.hview S) = none
+  | .nil, _ => rfl
+  | .clear k' x r, h => by
+    simp only [MMems.keys, List.mem_cons, not_or] at h
+    simp [MMems.hview, aget, h.1, aget_hview_none S k r h.2]
+  | .marked k' dg x r, h => by
+    simp only [MMems.keys, List.mem_cons, not_or] at h
+    simp only [MMems.hview]
+    split
+    · simp [aget, h.1, aget_hview_none S k r h.2]
+    · exact aget_hview_none S k r h.2
+
 theorem aget_hview_clear (S : String → Bool) (k : String) (x : MJ) :
     (ms : MMems) → ms.WF → k ∉ ms.keys → aget k ((ms.insClear k x).hview S) = some (x.hview S) := by
   intro ms wf hk
@@ -158,7 +171,8 @@ theorem finish_step23 (msn : MMems) (sdn sd1 : Option (List String)) (decoys : O
       (MJ.obj msF sd1).deepStale = (MJ.obj msn sd1).deepStale ∧
       aget "_sd_alg" (msF.hview (fun _ => false)) = some (.str "sha-256") ∧
       (∀ S : String → Bool, adel "_sd_alg" (msF.project S) = cnfIns cnf S (msn.project S)) ∧
-      msF.paths "" = msn.paths "" := by
+      msF.paths "" = msn.paths "" ∧
+      aget "cnf" (msF.hview (fun _ => false)) = cnf.map (·.payload) := by
   let alg : MJ := .leaf (.str "sha-256")
   have halgwf : alg.WF := by simp [alg, MJ.WF, J.scalar]
   obtain ⟨inv2, hdiscs2, hmarks2, hst2, _⟩ :=
@@ -176,7 +190,10 @@ theorem finish_step23 (msn : MMems) (sdn sd1 : Option (List String)) (decoys : O
   cases cnf with
   | none =>
     refine ⟨msn.insClear "_sd_alg" alg, ?_, inv2, hdiscs2, hmarks2, hst2, ?_, ?_,
-      paths_insClear "_sd_alg" alg "" rfl msn⟩
+      paths_insClear "_sd_alg" alg "" rfl msn, ?_⟩
+    rotate_right
+    · rw [hview_insClear _ "_sd_alg" alg msn wfn hk1n, aget_ains_ne _ (by decide)]
+      exact aget_hview_none _ "cnf" msn hk2n
     · simp only [finish, hT1, if_true, MJ.insTop, cnfTop]; rfl
     · exact aget_hview_clear _ "_sd_alg" alg msn wfn hk1n
     · intro S
@@ -188,7 +205,8 @@ theorem finish_step23 (msn : MMems) (sdn sd1 : Option (List String)) (decoys : O
       insTop_inv (msn.insClear "_sd_alg" alg) sd1 "cnf" X inv2 hk3 (by decide) (by decide) hXwf hXd
     refine ⟨(msn.insClear "_sd_alg" alg).insClear "cnf" X, ?_, inv3,
       hdiscs3.trans hdiscs2, hmarks3.trans hmarks2, hst3.trans hst2, ?_, ?_,
-      (paths_insClear "cnf" X "" (no_digests X hXwf hXd).1 _).trans (paths_insClear "_sd_alg" alg "" rfl msn)⟩
+      (paths_insClear "cnf" X "" (no_digests X hXwf hXd).1 _).trans (paths_insClear "_sd_alg" alg "" rfl msn),
+      by rw [hview_insClear _ "cnf" X _ wf2 hk3, aget_ains_self]; rfl⟩
     · simp only [finish, hT1, if_true, MJ.insTop, cnfTop]; rfl
     · rw [hview_insClear _ "cnf" X _ wf2 hk3, aget_ains_ne _ (by decide)]
       exact aget_hview_clear _ "_sd_alg" alg msn wfn hk1n
@@ -197,6 +215,84 @@ theorem finish_step23 (msn : MMems) (sdn sd1 : Option (List String)) (decoys : O
         adel_ains_ne "_sd_alg" "cnf" _ _ (sorted_ains _ _ _ (sorted_projectS S msn wfn)) (by decide),
         hdel S]
       rfl
+
+/-- what issuing establishes, for ANY selection `strs` of the issuer's disclosures in any order:
+the JWT carries the payload of a conformant object `F` (the finished tree) that declares
+`sha-256`, the restorer accepts the selection on it, and what it returns strips — `_sd_alg`
+dropped — to the issued claims projected on the selection (plus `cnf`) -/
+theorem issued_core (rt : Rt) (mk : Nat → Option String → J → String)
+    (paths : List String) (addr : List (List String × String)) (ms : MMems) (Tn : MJ)
+    (ds : List SDisc) (decoys : Option (List String)) (cnf : Option MJ) (jwt : String) (header : J)
+    (strs : List String)
+    (wf : (MJ.obj ms none).WF) (hplain : (MJ.obj ms none).digests = [])
+    (hk1 : "_sd_alg" ∉ ms.keys) (hk2 : "cnf" ∉ ms.keys)
+    (hp : ParsedAll paths addr) (h : markAll mk 0 addr (.obj ms none) = some (Tn, ds)) (hne : ds ≠ [])
+    (hdec : ∀ l, decoys = some l → l.Nodup ∧ (∀ g ∈ l, g ∉ Tn.digests))
+    (hX : ∀ X, cnf = some X → X.WF ∧ X.digests = [])
+    (hsig : ∀ payload dsrc,
+      encode (MJ.obj ms none).payload paths mk decoys (cnf.map (·.payload)) = .ok (payload, dsrc) →
+      rt.jwtDecode jwt = .ok (header, payload))
+    (hstr : ∀ s ∈ strs, ∃ e ∈ ds,
+      fromBase64 (rt.env "sha-256") s = .ok ⟨s, e.digest, e.key, e.value⟩)
+    (hnd : (strs.map (rt.hash "sha-256")).Nodup) :
+    ∃ msn sdn msF sd1 c ps L, Tn = .obj msn sdn ∧
+      rt.jwtDecode jwt = .ok (header, (MJ.obj msF sd1).payload) ∧
+      aget "_sd_alg" (msF.hview (fun _ => false)) = some (.str "sha-256") ∧
+      aget "cnf" (msF.hview (fun _ => false)) = cnf.map (·.payload) ∧
+      restoreAll (rt.env "sha-256") (MJ.obj msF sd1).payload strs = .ok (c, ps) ∧
+      dropAlg (removeAll c) = .obj (cnfIns cnf (fun g => strs.any fun s => decide (rt.hash "sha-256" s = g))
+        (msn.project (fun g => strs.any fun s => decide (rt.hash "sha-256" s = g)))) ∧
+      (∀ d ∈ L, ∃ s ∈ strs, fromBase64 (rt.env "sha-256") s = .ok d) ∧
+      (∀ s ∈ strs, ∃ d ∈ L, fromBase64 (rt.env "sha-256") s = .ok d) ∧
+      PathsOK (.obj msF sd1) L ps ∧ (MJ.obj msF sd1).paths "" = (MJ.obj msn sdn).paths "" ∧
+      (MJ.obj msF sd1).allMarks = (MJ.obj msn sdn).allMarks := by
+  obtain ⟨hm0, _, hst0⟩ := no_digests _ wf hplain
+  have inv : TreeInv (.obj ms none) := ⟨wf, by rw [hplain]; exact List.nodup_nil, by rw [hm0]; exact List.nodup_nil⟩
+  obtain ⟨invn, hst, pm, pdi, _⟩ := markAll_inv mk addr 0 (.obj ms none) Tn ds inv h
+  obtain ⟨hobj, hkeys⟩ := markAll_top mk addr 0 (.obj ms none) Tn ds h
+  have henc := encode_tree mk paths addr ms none Tn ds decoys cnf wf hp h hk1 hk2
+  obtain ⟨msn, sdn, rfl⟩ := MJ.eq_obj_of_isObj Tn (by rw [hobj]; rfl)
+  simp only [MJ.topKeys] at hkeys
+  have hk1n : "_sd_alg" ∉ msn.keys := by rw [hkeys]; exact hk1
+  have hk2n : "cnf" ∉ msn.keys := by rw [hkeys]; exact hk2
+  have hdsne : (!ds.isEmpty) = true := by cases ds with
+    | nil => exact absurd rfl hne
+    | cons a r => rfl
+  rw [hdsne] at henc
+  have hjwt := hsig _ _ henc
+  have wfn := invn.wf
+  simp only [MJ.WF] at wfn
+  obtain ⟨sd1, hT1, inv1, hst1⟩ := finish_step1 msn sdn decoys invn hdec
+  obtain ⟨msF, hF, invF, hdiscsF, hmarksF, hstF, halgF, hprojF, hpathsF, hcnfF⟩ :=
+    finish_step23 msn sdn sd1 decoys cnf wfn.1 inv1 hT1 hk1n hk2n hX
+  have hdiscs1 : (MJ.obj msn sd1).discs = (MJ.obj msn sdn).discs := rfl
+  rw [hF] at hjwt
+  have hT0stale : ∀ g, g ∉ (MJ.obj ms none).deepStale := by simp [hst0]
+  have hstrF : ∀ s ∈ strs, ∃ e ∈ (MJ.obj msF sd1).discs, e.digest ∉ (MJ.obj msF sd1).deepStale ∧
+      fromBase64 (rt.env "sha-256") s = .ok ⟨s, e.digest, e.key, e.value⟩ := by
+    intro s hs'
+    obtain ⟨e, he, hf⟩ := hstr s hs'
+    have hein : e ∈ (MJ.obj msn sdn).discs := pdi.symm.subset (by simp [he])
+    refine ⟨e, by rw [hdiscsF, hdiscs1]; exact hein, ?_, hf⟩
+    rw [hstF]
+    intro hh
+    rcases hst1 _ hh with h1 | h1
+    · exact hT0stale _ (hst _ h1)
+    · obtain (hdc | ⟨l, hdc⟩) : decoys = none ∨ ∃ l, decoys = some l := by cases decoys <;> simp
+      · simp [hdc] at h1
+      · have hmem : e.digest ∈ (MJ.obj msn sdn).allMarks := by
+          rw [← MJ.discs_digest]; exact List.mem_map_of_mem hein
+        have := MJ.allMarks_sub_digests _ invn.wf _ hmem
+        exact (hdec l hdc).2 _ (by simpa [hdc] using h1) this
+  obtain ⟨c, ps, L, hr, hc, hLfrom, hLto, hpok⟩ :=
+    restore_own_paths (rt.env "sha-256") (.obj msF sd1) invF strs hstrF hnd
+  refine ⟨msn, sdn, msF, sd1, c, ps, L, rfl, hjwt, halgF, hcnfF, hr, ?_, hLfrom, hLto, hpok, ?_, ?_⟩
+  · rw [hc]
+    simp only [MJ.project, dropAlg]
+    rw [hprojF]
+    rfl
+  · simp [MJ.paths, hpathsF]
+  · rw [hmarksF]; rfl
 
 /-- **Issuer → wire → holder.** -/
 theorem holder_verify_issued (rt : Rt) (mk : Nat → Option String → J → String)
@@ -219,64 +315,32 @@ theorem holder_verify_issued (rt : Rt) (mk : Nat → Option String → J → Str
     ∃ ps, Holder.verify rt (assemble jwt strs) = .ok (header, expectedClaims ms cnf, ps) ∧
       (ps.map (fun e => (e.1, e.2.digest))).Perm (Tn.paths "") ∧
       (∀ e ∈ ps, ∃ s ∈ strs, fromBase64 (rt.env "sha-256") s = .ok e.2) := by
-  -- the start tree
-  obtain ⟨hm0, _, hst0⟩ := no_digests _ wf hplain
+  obtain ⟨hm0, _, _⟩ := no_digests _ wf hplain
   have inv : TreeInv (.obj ms none) := ⟨wf, by rw [hplain]; exact List.nodup_nil, by rw [hm0]; exact List.nodup_nil⟩
-  obtain ⟨invn, hst, pm, pdi, _⟩ := markAll_inv mk addr 0 (.obj ms none) Tn ds inv h
-  obtain ⟨hobj, hkeys⟩ := markAll_top mk addr 0 (.obj ms none) Tn ds h
+  obtain ⟨_, _, pm, _, _⟩ := markAll_inv mk addr 0 (.obj ms none) Tn ds inv h
   have hplainn := markAll_plain mk addr 0 (.obj ms none) Tn ds h
-  have henc := encode_tree mk paths addr ms none Tn ds decoys cnf wf hp h hk1 hk2
-  obtain ⟨msn, sdn, rfl⟩ := MJ.eq_obj_of_isObj Tn (by rw [hobj]; rfl)
-  simp only [MJ.topKeys] at hkeys
-  have hk1n : "_sd_alg" ∉ msn.keys := by rw [hkeys]; exact hk1
-  have hk2n : "cnf" ∉ msn.keys := by rw [hkeys]; exact hk2
-  have hdsne : (!ds.isEmpty) = true := by cases ds with
-    | nil => exact absurd rfl hne
-    | cons a r => rfl
-  rw [hdsne] at henc
-  have hjwt := hsig _ _ henc
-  have wfn := invn.wf
-  simp only [MJ.WF] at wfn
-  obtain ⟨sd1, hT1, inv1, hst1⟩ := finish_step1 msn sdn decoys invn hdec
-  obtain ⟨msF, hF, invF, hdiscsF, hmarksF, hstF, halgF, hprojF, hpathsF⟩ :=
-    finish_step23 msn sdn sd1 decoys cnf wfn.1 inv1 hT1 hk1n hk2n hX
-  have hdiscs1 : (MJ.obj msn sd1).discs = (MJ.obj msn sdn).discs := rfl
-  rw [hF] at hjwt
-  -- the presented strings are disclosures of the finished tree, none of them stale
-  have hT0stale : ∀ g, g ∉ (MJ.obj ms none).deepStale := by simp [hst0]
-  have hstrF : ∀ s ∈ strs, ∃ e ∈ (MJ.obj msF sd1).discs, e.digest ∉ (MJ.obj msF sd1).deepStale ∧
-      fromBase64 (rt.env "sha-256") s = .ok ⟨s, e.digest, e.key, e.value⟩ := by
-    intro s hs'
-    obtain ⟨e, he, hf⟩ := hstr s hs'
-    have hein : e ∈ (MJ.obj msn sdn).discs := pdi.symm.subset (by simp [he])
-    refine ⟨e, by rw [hdiscsF, hdiscs1]; exact hein, ?_, hf⟩
-    rw [hstF]
-    intro hh
-    rcases hst1 _ hh with h1 | h1
-    · exact hT0stale _ (hst _ h1)
-    · -- a decoy equal to a disclosure digest: excluded by freshness of the decoys
-      obtain (hdc | ⟨l, hdc⟩) : decoys = none ∨ ∃ l, decoys = some l := by cases decoys <;> simp
-      · simp [hdc] at h1
-      · have hmem : e.digest ∈ (MJ.obj msn sdn).allMarks := by
-          rw [← MJ.discs_digest]; exact List.mem_map_of_mem hein
-        have := MJ.allMarks_sub_digests _ invn.wf _ hmem
-        exact (hdec l hdc).2 _ (by simpa [hdc] using h1) this
-  obtain ⟨c, ps, L, hr, hc, hLfrom, hLto, hpok⟩ :=
-    restore_own_paths (rt.env "sha-256") (.obj msF sd1) invF strs hstrF hnd
+  obtain ⟨msn, sdn, msF, sd1, c, ps, L, rfl, hjwt, halgF, _, hr, hc, hLfrom, hLto, hpok, hpathsF, hmarksF⟩ :=
+    issued_core rt mk paths addr ms Tn ds decoys cnf jwt header strs wf hplain hk1 hk2 hp h hne hdec hX
+      hsig hstr hnd
+  have hS : ∀ g ∈ (MJ.obj msn sdn).allMarks, (strs.any fun s => decide (rt.hash "sha-256" s = g)) = true := by
+    intro g hg
+    have : g ∈ ds.map (·.digest) := by simpa [hm0] using pm.subset hg
+    obtain ⟨e, he, rfl⟩ := List.mem_map.mp this
+    obtain ⟨s, hs', hh⟩ := hall e he
+    simp only [List.any_eq_true, decide_eq_true_eq]
+    exact ⟨s, hs', hh⟩
   refine ⟨ps, ?_, ?_, ?_⟩
   rotate_left
-  · -- every marked node has its disclosure among the decoded ones
-    have hallL : ∀ g ∈ (MJ.obj msF sd1).allMarks, ∃ d ∈ L, d.digest = g := by
+  · have hallL : ∀ g ∈ (MJ.obj msF sd1).allMarks, ∃ d ∈ L, d.digest = g := by
       intro g hg
       rw [hmarksF] at hg
-      have hg' : g ∈ (MJ.obj msn sdn).allMarks := hg
-      have : g ∈ ds.map (·.digest) := by simpa [hm0] using pm.subset hg'
+      have : g ∈ ds.map (·.digest) := by simpa [hm0] using pm.subset hg
       obtain ⟨e, he, rfl⟩ := List.mem_map.mp this
       obtain ⟨s, hs', hh⟩ := hall e he
       obtain ⟨d, hd, hf⟩ := hLto s hs'
       exact ⟨d, hd, by rw [fromBase64_digest _ s d hf]; exact hh⟩
     have := hpok.all hallL
-    simpa [MJ.paths, hpathsF] using this
+    rwa [hpathsF] at this
   · intro e he
     exact hLfrom e.2 (hpok.sound e he).2
   -- run the holder
@@ -291,23 +355,54 @@ theorem holder_verify_issued (rt : Rt) (mk : Nat → Option String → J → Str
   have hres : Holder.verify rt (assemble jwt strs) = .ok (header, removeDigests c, ps) := by
     simp [Holder.verify, hraw, halgJ, parseHashAlg, hr]
   rw [hres, removeDigests_eq, hc]
-  -- what comes back
-  have hS : ∀ g ∈ (MJ.obj msn sdn).allMarks, (strs.any fun s => decide (rt.hash "sha-256" s = g)) = true := by
-    intro g hg
-    have : g ∈ ds.map (·.digest) := by simpa [hm0] using pm.subset hg
-    obtain ⟨e, he, rfl⟩ := List.mem_map.mp this
-    obtain ⟨s, hs', hh⟩ := hall e he
-    simp only [List.any_eq_true, decide_eq_true_eq]
-    exact ⟨s, hs', hh⟩
   have hproj : msn.project (fun g => strs.any fun s => decide (rt.hash "sha-256" s = g)) =
       ms.project (fun _ => true) := by
     have h1 : (MJ.obj msn sdn).project (fun g => strs.any fun s => decide (rt.hash "sha-256" s = g)) =
         (MJ.obj msn sdn).plain := MJ.project_congr _ _ _ (fun g hg => by simpa using hS g hg)
     rw [hplainn] at h1
     simpa [MJ.project, MJ.plain] using h1
-  have hproj' : msn.project (fun g => strs.any fun s => decide ((rt.env "sha-256").hash s = g)) =
-      ms.project (fun _ => true) := hproj
-  simp only [MJ.project, dropAlg, hprojF, hproj']
-  rw [expected_eq ms cnf _ hX]
+  rw [hproj, expected_eq ms cnf _ hX]
+
+/-- **Issuer → any selection → wire → verifier** (unbound token).  For ANY selection `kept` of the
+issuer's disclosures, in any order: the verifier accepts `jwt~kept…~` under either key-binding
+policy and returns the header and the issued claims with exactly those marked nodes present
+whose own and enclosing disclosures were kept. -/
+theorem verifier_verify_issued (rt : Rt) (mk : Nat → Option String → J → String)
+    (paths : List String) (addr : List (List String × String)) (ms : MMems) (Tn : MJ)
+    (ds : List SDisc) (decoys : Option (List String)) (jwt : String) (header : J)
+    (kept : List String) (policy : Bool)
+    (wf : (MJ.obj ms none).WF) (hplain : (MJ.obj ms none).digests = [])
+    (hk1 : "_sd_alg" ∉ ms.keys) (hk2 : "cnf" ∉ ms.keys)
+    (hp : ParsedAll paths addr) (h : markAll mk 0 addr (.obj ms none) = some (Tn, ds)) (hne : ds ≠ [])
+    (hdec : ∀ l, decoys = some l → l.Nodup ∧ (∀ g ∈ l, g ∉ Tn.digests))
+    (hsig : ∀ payload dsrc,
+      encode (MJ.obj ms none).payload paths mk decoys none = .ok (payload, dsrc) →
+      rt.jwtDecode jwt = .ok (header, payload))
+    (hstr : ∀ s ∈ kept, ∃ e ∈ ds,
+      fromBase64 (rt.env "sha-256") s = .ok ⟨s, e.digest, e.key, e.value⟩)
+    (hnd : (kept.map (rt.hash "sha-256")).Nodup)
+    (hj : '~' ∉ jwt.toList) (hs : ∀ s ∈ kept, '~' ∉ s.toList) :
+    Verifier.verify rt (assemble jwt kept) policy =
+      .ok (header, Tn.project (fun g => kept.any fun s => decide (rt.hash "sha-256" s = g))) := by
+  obtain ⟨msn, sdn, msF, sd1, c, ps, L, rfl, hjwt, halgF, hcnfF, hr, hc, _, _, _, _, _⟩ :=
+    issued_core rt mk paths addr ms Tn ds decoys none jwt header kept wf hplain hk1 hk2 hp h hne hdec
+      (by simp) hsig hstr hnd
+  have halgJ : (jidx (MJ.obj msF sd1).payload "_sd_alg").asStr = some "sha-256" := by
+    simp only [MJ.payload, MJ.hview, jidx, aget_withSd_ne sd1 "_sd_alg" _ (by decide)]
+    rw [halgF]; rfl
+  have hcnfJ : jidx (MJ.obj msF sd1).payload "cnf" = .null := by
+    simp only [MJ.payload, MJ.hview, jidx, aget_withSd_ne sd1 "cnf" _ (by decide)]
+    rw [hcnfF]; rfl
+  have hparts := sdJwtParts_assemble jwt kept hj hs
+  have hstrs : (kept.map (·.toList)).map strOf = kept := by
+    simp [List.map_map, Function.comp_def, strOf, String.ofList_toList]
+  have hraw : Verifier.verifyRaw rt (assemble jwt kept) policy =
+      .ok (header, (MJ.obj msF sd1).payload, kept) := by
+    simp [Verifier.verifyRaw, hparts, strOf, String.ofList_toList, hjwt, halgJ, hcnfJ, isNullJ,
+      parseHashAlg, hstrs]
+  have hres : Verifier.verify rt (assemble jwt kept) policy = .ok (header, removeDigests c) := by
+    simp [Verifier.verify, hraw, halgJ, parseHashAlg, hr]
+  rw [hres, removeDigests_eq, hc]
+  rfl
 
 end Impl
